@@ -568,8 +568,8 @@ CodegenResult Theo::gen(Theo::AST in) {
       .backpatching_todo = {},
       .fs =
           {
-              .name = "#root_file_context",
-              .line = 0,
+              .name = "-",
+              .line = -1,
           },
   };
 
